@@ -99,7 +99,19 @@ F7 ==
        IN /\ dev = Cfg(acls, intfs, routes, FALSE)
           /\ tgt = Cfg([E0_in |-> b], [E0 |-> I("", "E0_in", "")], {}, FALSE)
 
-Init == CASE Fam = "F1" -> F1 [] Fam = "F3" -> F3 [] Fam = "F4" -> F4 [] Fam = "F7" -> F7 [] Fam = "F8" -> F8
+(* M1: merge of the Netspoc part and the raw part (C18) on an empty device *)
+SeqsUpTo(S, n) == {<<>>} \cup InjSeqs(S, n)
+V4Pool == {Ace("permit", "ip", T("host", "h1"), T("host", "h3")), Ace("permit", "tcp80", T("any", ""), T("host", "h3")),
+           Ace("deny", "ip", T("any", ""), T("any", ""))}
+PrePool == {Ace("permit", "udp53", T("net", "n34"), T("any", "")), Ace("deny", "ip", T("host", "h4"), T("any", ""))}
+AppPool == {AceL("deny", "ip", T("any", ""), T("host", "h3"), "log"), Ace("permit", "icmp", T("any", ""), T("any", ""))}
+M1 ==
+  \E v4 \in InjSeqs(V4Pool, MaxLen), pre \in SeqsUpTo(PrePool, 2), app \in SeqsUpTo(AppPool, 2) :
+    /\ dev = Cfg(NoFn, [E0 |-> I("", "", "")], {}, FALSE)
+    /\ tgt = [acls |-> [E0_in |-> v4], intfs |-> [E0 |-> I("", "E0_in", "")], routes |-> {}, xe |-> FALSE,
+              parts |-> [v4 |-> v4, v6 |-> <<>>, pre |-> pre, app |-> app]]
+
+Init == CASE Fam = "M1" -> M1 [] Fam = "F1" -> F1 [] Fam = "F3" -> F3 [] Fam = "F4" -> F4 [] Fam = "F7" -> F7 [] Fam = "F8" -> F8
 Next == UNCHANGED <<dev, tgt>>
 Out == PrintT(<<"VOUT", ToJson([fam |-> Fam, dev |-> dev, tgt |-> tgt, tie |-> FALSE])>>)
 =============================================================================
